@@ -3,6 +3,7 @@ package main
 import (
 	"fmt"
 	"go/token"
+	"sort"
 
 	"golang.org/x/tools/go/ssa"
 )
@@ -13,6 +14,7 @@ func init() {
 }
 
 func checkC01(c *Ctx) {
+	ruleCRSplit(c)
 	ruleOrphanExit(c)
 	ruleCtor(c)
 	ruleClamp(c)
@@ -30,6 +32,7 @@ func checkC01(c *Ctx) {
 }
 
 func checkC08(c *Ctx) {
+	ruleCRSplit(c)
 	ruleParserLatch(c)
 	ruleSticky(c)
 	ruleReadNUsed(c)
@@ -339,4 +342,123 @@ func init() {
 			New: "\t\tfirstChild := nodeIndexForPosition(originalBlock.inlineChildren, r.pos)\n\t\tif firstChild < 0 {\n\t\t\treturn result\n\t\t}", Expect: "ORPHAN-EXIT/onCloseParagraph:return",
 			Why: "'[foo]: /url \"title\"\\n===\\n': the underline line then belongs to no block"},
 	)
+}
+
+// CR-SPLIT: whoever cuts the buffer behind a CR looks at the byte after it.
+func ruleCRSplit(c *Ctx) {
+	c.Rule("CR-SPLIT", "A CR ends a line only if no LF follows; when the CR is the last byte read so far the LF may still arrive with the next read. In the functions that split the parser's buffer into lines (static call closure of NextBlock), a loop that compares the byte at an index I with CR and, on that arm, turns I+1 into a position — assigns it, returns it, or uses it as a slice bound — also reads the byte at I+1 of the same slice somewhere in the function (the look-ahead; whether it is consulted correctly is LINE-COMPLETE's and LINECOUNT-STEP's business). A helper that takes 'index of the CR, plus one' as the end of complete lines without ever looking at the next byte cuts CR LF in two when a read ends between them: every later block's line number is one too high.")
+	p := c.P
+	entry := p.Method("BlockParser", "NextBlock")
+	if !c.NeedFunc("CR-SPLIT", entry, "(*BlockParser).NextBlock") {
+		return
+	}
+	n := 0
+	var fns []*ssa.Function
+	for f := range staticReach(p, []*ssa.Function{entry}) {
+		fns = append(fns, f)
+	}
+	sort.Slice(fns, func(i, j int) bool { return fns[i].String() < fns[j].String() })
+	for _, fn := range fns {
+		if fn.Pkg != p.CMs || fn.Blocks == nil {
+			continue
+		}
+		// byte loads S[I]
+		type ld struct {
+			s, idx ssa.Value
+		}
+		loads := map[ssa.Value]ld{}
+		eachInstr(fn, func(in ssa.Instruction) {
+			if u, ok := in.(*ssa.UnOp); ok && u.Op == token.MUL {
+				if ia, ok := u.X.(*ssa.IndexAddr); ok {
+					loads[u] = ld{ia.X, ia.Index}
+				}
+			}
+			// range over a byte slice: the element value is Extract #2? (go/ssa lowers slice ranges to index loops: IndexAddr) — nothing to add
+		})
+		site := 0
+		eachInstr(fn, func(in ssa.Instruction) {
+			bo, ok := in.(*ssa.BinOp)
+			if !ok || bo.Op != token.EQL {
+				return
+			}
+			k, ok := constInt(bo.Y)
+			if !ok || k != '\r' {
+				return
+			}
+			l, ok := loads[bo.X]
+			if !ok {
+				return
+			}
+			// the arm taken when the byte is CR: blocks dominated by the true edge of an If on this comparison
+			var arm []*ssa.BasicBlock
+			for _, b := range fn.Blocks {
+				iff := blockIf(b)
+				if iff == nil || iff.Cond != ssa.Value(bo) {
+					continue
+				}
+				// the block entered when the byte is CR (it may be shared with the LF case) and what it dominates
+				t := b.Succs[0]
+				for _, x := range fn.Blocks {
+					if x == t || t.Dominates(x) {
+						arm = append(arm, x)
+					}
+				}
+			}
+			if len(arm) == 0 {
+				return
+			}
+			// does I+1 become a position on that arm?
+			becomes := false
+			for _, b := range arm {
+				for _, x := range b.Instrs {
+					v, ok := x.(*ssa.BinOp)
+					if !ok || v.Op != token.ADD {
+						continue
+					}
+					base, kk := linTerm(v)
+					ib, ik := linTerm(l.idx)
+					if kk != ik+1 || !(base == ib || sameTerm(base, ib)) {
+						continue
+					}
+					for _, r := range refsOf(v) {
+						switch y := r.(type) {
+						case *ssa.IndexAddr:
+							if y.Index == ssa.Value(v) {
+								continue // reading the next byte is the look-ahead, not a position
+							}
+							becomes = true
+						case *ssa.BinOp:
+							switch y.Op {
+							case token.LSS, token.LEQ, token.GTR, token.GEQ, token.EQL, token.NEQ:
+								continue // a bound check of the look-ahead
+							}
+							becomes = true
+						case *ssa.DebugRef:
+						default:
+							becomes = true
+						}
+					}
+				}
+			}
+			if !becomes {
+				return
+			}
+			n++
+			site++
+			// a read of S[I+1] anywhere in the function
+			looks := false
+			for _, other := range loads {
+				base, kk := linTerm(other.idx)
+				ib, ik := linTerm(l.idx)
+				if kk == ik+1 && (base == ib || sameTerm(base, ib)) && (other.s == l.s || sameTerm(other.s, l.s)) {
+					looks = true
+				}
+			}
+			c.Check(looks, "CR-SPLIT", fmt.Sprintf("%s:cr#%d", shortFuncName(fn), site), bo.Pos(), "on the CR arm the index plus one becomes a position, but the function never reads the byte after the CR")
+		})
+	}
+	c.Analysed["cr_arms_that_yield_a_position"] = n
+	if n == 0 {
+		c.OK("CR-SPLIT", "none", token.NoPos, "no function in NextBlock's closure derives a position from the index of a CR (readline searches with IndexAny and is LINE-COMPLETE's)")
+	}
 }
